@@ -31,6 +31,16 @@ func (msgServer).subUnlockedERC20Tokens
             && 0 < msg.Coin.Amount && msg.Coin.Amount <= bank_bal[fromAddr][amt.Denom] - locked
     call ConvertCoin requires same: goCtx == ctx_wrap(ctx) && bank_bal == old(bank_bal) && auth_accs == old(auth_accs) && bank_supply == old(bank_supply)
     call CallEVM requires own: from == bytes_to_address(addr_bytes(fromAddr)) && method == "transfer"
+    // C10 (conversion by the bank-send wrapper ... or fails without effect): success is reported only if the token's transfer()
+    // returned true (finding F-N1, fixed: the error of the preceding, successful CallEVM was wrapped, which is nil)
+    ensures c10_transfer_true: result == nil ==> abi_bool(ret(CallEVM, 1, 0).Ret)
+
+// the bank wrapper's copy of the Approval-event scan: reads the response only (verified: no modifies clause), so that the response
+// of the EVM call is still the same object when subUnlockedERC20Tokens returns
+func (msgServer).monitorApprovalEvent
+    loop 1 invariant idx: 0 <= #i && #i <= len(res.Logs)
+    ensures true
+    allow nil
 
 // ---- expected keepers of the wrapper (assumed contracts = trusted leaves): erc20 params / token-pair store reads,
 // account store reads and writes
